@@ -120,7 +120,10 @@ var selfOps = []struct {
 	{"WriteFile(a,3B,0644)", func(a *api, o *obs) { o.add("%s", errClass(a.writeFile(a.p("a"), []byte("bbb"), 0o644))) }},
 	{"WriteFile(b,5B,0600)", func(a *api, o *obs) { o.add("%s", errClass(a.writeFile(a.p("b"), []byte("CCCCC"), 0o600))) }},
 	{"WriteFile(a,empty)", func(a *api, o *obs) { o.add("%s", errClass(a.writeFile(a.p("a"), nil, 0o600))) }},
-	{"ReadFile(a)", func(a *api, o *obs) { b, err := a.readFile(a.p("a")); o.add("%s %q nil=%v", errClass(err), b, b == nil) }},
+	{"ReadFile(a)", func(a *api, o *obs) {
+		b, err := a.readFile(a.p("a"))
+		o.add("%s %q nil=%v", errClass(err), b, b == nil)
+	}},
 	{"ReadFile(b)", func(a *api, o *obs) { b, err := a.readFile(a.p("b")); o.add("%s %q", errClass(err), b) }},
 	{"Rename(a,b)", func(a *api, o *obs) { o.add("%s", errClass(a.rename(a.p("a"), a.p("b")))) }},
 	{"Rename(b,a)", func(a *api, o *obs) { o.add("%s", errClass(a.rename(a.p("b"), a.p("a")))) }},
@@ -131,6 +134,12 @@ var selfOps = []struct {
 			n, err := h.Write([]byte("zz"))
 			o.add("w:%d %s", n, errClass(err))
 			n, err = h.Write([]byte("y"))
+			o.add("w:%d %s", n, errClass(err))
+		})
+	}},
+	{"Open(a,WRONLY|CREATE) no trunc", func(a *api, o *obs) {
+		withFile(a, o, "a", os.O_WRONLY|os.O_CREATE, 0o600, func(h handle) {
+			n, err := h.Write([]byte("nt"))
 			o.add("w:%d %s", n, errClass(err))
 		})
 	}},
